@@ -139,7 +139,9 @@ class ExecGen:
         self.counter += 1
         return "k%d" % self.counter
 
-    def selection(self, parent, depth, reg, frags, allow_vars, n=None):
+    def selection(self, parent, depth, reg, frags, allow_vars, n=None, all_aliased=False):
+        """all_aliased: every field of this selection set (not of nested ones) gets a fresh alias - the second selection of an already
+        selected composite key is often made of aliased fields only, so that the merged branch owes some keys to aliases alone"""
         r = self.r
         k = self.kind(parent)
         fields = self.types[parent]["fields"] if k in ("object", "interface") else []
@@ -156,7 +158,7 @@ class ExecGen:
                 if composite and depth >= 2:
                     continue
                 args = self.args_for(f["name"], f["args"])
-                key = f["name"] if not r.chance(1, 6) else self.fresh()
+                key = f["name"] if not (all_aliased or r.chance(1, 6)) else self.fresh()
                 if args is None:
                     args = [G.arg(a["name"], self.lit(a["type"])) for a in f["args"] if a["type"]["k"] == "nn" and not a["hasDefault"]]
                     key = self.fresh()
@@ -166,15 +168,19 @@ class ExecGen:
                 if key not in reg.e:
                     reg.e[key] = {"sig": sig, "sub": Reg() if composite else None}
                 self.budget -= 1
-                sub = self.selection(ut, depth + 1, reg.e[key]["sub"], frags, allow_vars) if composite else None
+                merged_again = composite and bool(reg.e[key]["sub"].e)
+                sub = self.selection(ut, depth + 1, reg.e[key]["sub"], frags, allow_vars,
+                                     all_aliased=merged_again and r.chance(1, 2)) if composite else None
                 sel.append(G.field(f["name"], key if key != f["name"] else None, args, self.cond_dirs(allow_vars), sub))
             elif c < 7:
-                key = "__typename" if r.chance(3, 4) else self.fresh()
+                key = "__typename" if not all_aliased and r.chance(3, 4) else self.fresh()
                 sig = json.dumps(["__typename"])
                 if key in reg.e and reg.e[key]["sig"] != sig:
                     continue
                 reg.e[key] = {"sig": sig, "sub": None}
                 sel.append(G.field("__typename", key if key != "__typename" else None, None, self.cond_dirs(allow_vars)))
+            elif all_aliased:
+                continue
             elif c < 10 and depth < 3:
                 cands = sorted(t for t, d in self.types.items() if d["k"] in ("object", "interface", "union") and self.possible(t) & self.possible(parent))
                 t = None if (r.chance(1, 4) or not cands) else r.choice(cands)
@@ -195,6 +201,10 @@ class ExecGen:
                     reg.merge(self.frag_regs[fname])
                     self.used_vars |= self.frag_vars[fname]
                     sel.append(G.spread(fname, self.cond_dirs(allow_vars)))
+        if not sel and all_aliased:
+            k = self.fresh()
+            reg.e[k] = {"sig": json.dumps(["__typename"]), "sub": None}
+            sel.append(G.field("__typename", k))
         if not sel:
             if "__typename" not in reg.e:
                 reg.e["__typename"] = {"sig": json.dumps(["__typename"]), "sub": None}
